@@ -161,8 +161,14 @@ ADDENDA = {
 }
 
 NOT_APPLICABLE = {
-    "C13": "Join pairing, ordering and unpaired accounting are relational identities over run-time key values and bucket contents; no clause is a shape fact visible to static analysis (the shared protocol facts are reported under C04/C10/C17).",
 }
+
+CLAIMS["C13"] = (
+    "table reader over the case blocks of the join verb's option switch + side provenance of every key computation (right = a record function's input, left = received from the left file's reader channel) + dominating-guard check of every emission call and of the was-paired store + path rule over the left-file ingest loop, all on SSA",
+    "Decides the shape facts every pairing rests on, and nothing about which records pair: each flag of the join verb's own parser stores what its documentation says (--np, --ul, --ur, --ignore-empty, -u, -s, -j, -l, -r, --lp, --rp, --lk, -f); a record of the right stream is keyed by rightJoinFieldNames and a record of the left file by leftJoinFieldNames; paired records are formed only under emitPairables, unpaired right records emitted only under emitRightUnpairables, unpaired left ones only under emitLeftUnpairables, none under a test of another of the three; a bucket is marked paired where a right record finds it, under no test of emitPairables (--np --ul); every function that forms keys tests them with anyValueIsEmpty under ignoreEmptyJoinFields; every left record whose key was taken is appended to a bucket or to the unpairable list on every path (or dropped on the false side of emitLeftUnpairables). NOT decided: key equality as text, order of pairs, composition of the paired record and --lp/--rp collisions, the sorted-mode bucket keeper, equivalence of -s and -u on sorted input — the bulk of the statement.",
+    "Trusts go/ssa. The flag-to-field table is the documented meaning of the flags, frozen in checker/c13.go; the option field names are the repository's own and a rename makes R13.1 undecided. Built late (after six seeding rounds for the other properties); validated by six breaking and three benign variants of my own and by one late seeding run (DESIGN §6).",
+    "DESIGN.md §3 C13",
+)
 
 PENDING_REASON = "static check for this property is not built yet in this snapshot of /verif (see DESIGN.md §3 for the planned rules)"
 
